@@ -7,7 +7,8 @@ Model of `scylla/src/routing/sharding.rs` (C11).
 * `validPorts`   ← `(first_valid_port..=range_end).step_by(nr_shards)`.
 * `drawPort`     ← `draw_source_port_for_shard_from_range` (165-188) with the random index as an argument.
 * `iterPorts`    ← `iter_source_ports_for_shard_from_range` (207-237) with the random pivot as an argument.
-* `parseShardInfo` ← `ShardInfo::try_from` / `ShardInfo::new` (85-103, 274-308) after string → number parsing.
+* `parseShardInfo` ← `ShardInfo::try_from` / `ShardInfo::new` (85-103, 286-320) after string → number parsing;
+  `parseShardOptions` is the whole `try_from`, key presence and empty value lists included.
 -/
 namespace ScyllaVerif.Sharding
 
@@ -79,5 +80,49 @@ def parseShardInfo (shard nrShards msb : Nat) : Except ShardInfoErr ShardInfo :=
   else if msb > 255 then .error .parse
   else if shard ≥ nrShards then .error .shardOutOfRange
   else .ok ⟨shard, nrShards, msb⟩
+
+/-- One of the three SUPPORTED entries as `ShardInfo::try_from` sees it: the key may be absent, its value list may be
+empty, or its first value is a string that either is a decimal number or is not (`none`). -/
+inductive Entry where
+  | absent
+  | empty
+  | val (n : Option Nat)
+  deriving Repr, DecidableEq
+
+inductive OptionsErr where
+  | noShardInfo              -- all three keys absent: most likely a Cassandra node
+  | missingSome              -- some, but not all, keys present
+  | missingValues            -- a key is present with an empty value list
+  | info (e : ShardInfoErr)  -- the three first values are there: parse + range checks
+  deriving Repr, DecidableEq
+
+/-- `ShardInfo::try_from(&HashMap<String, Vec<String>>)` (`sharding.rs:286-320`): presence of the three keys first,
+then of their first values, then the parses in the code's order (shard, nr_shards, zero test, msb_ignore, range test;
+a first value that is not a number is a parse error at ITS position in that order). -/
+def parseShardOptions (shard nrShards msb : Entry) : Except OptionsErr ShardInfo :=
+  match shard, nrShards, msb with
+  | .absent, .absent, .absent => .error .noShardInfo
+  | .absent, _, _ => .error .missingSome
+  | _, .absent, _ => .error .missingSome
+  | _, _, .absent => .error .missingSome
+  | .empty, _, _ => .error .missingValues
+  | _, .empty, _ => .error .missingValues
+  | _, _, .empty => .error .missingValues
+  | .val s, .val n, .val m =>
+    match s with
+    | none => .error (.info .parse)
+    | some s =>
+      if s > 65535 then .error (.info .parse) else
+      match n with
+      | none => .error (.info .parse)
+      | some n =>
+        if n > 65535 then .error (.info .parse)
+        else if n = 0 then .error (.info .zeroShards)
+        else match m with
+          | none => .error (.info .parse)
+          | some m =>
+            if m > 255 then .error (.info .parse)
+            else if s ≥ n then .error (.info .shardOutOfRange)
+            else .ok ⟨s, n, m⟩
 
 end ScyllaVerif.Sharding
